@@ -13,6 +13,7 @@ from typing import Dict, List, Optional, Set, Tuple
 
 from ..model import Repo, FuncInfo, AnalysisError, norm, parent, ancestors, enclosing_stmt, const_str
 from ..report import Ctx, RuleResult
+from ..exprs import has_pat, find_pat
 from ..cfg import cfg_of
 from ..exprs import linear, lin_str, bind_call
 
@@ -254,4 +255,18 @@ def run(ctx: Ctx) -> RuleResult:
     res.ob('%s %s' % (st.loc(), st.qual), 'the earliest match over all regex chunks is taken', okm)
     if not okm:
         res.finding(st, st.node, 'Scanner.search does not take the minimum start over its regex chunks', construct='search-min')
+    # ---- the contextual lexer searches with the lexer of the state the scan starts in (the lexer that will lex there) ----
+    cs = repo.func('lark.lexer:ContextualLexer.search_start')
+    ps = cs.positional_names()
+    ok = len(ps) >= 3 and has_pat(cs.body_nodes(), 'return $me.lexers[%s].search_start(%s, %s, %s)' % (ps[1], ps[0], ps[1], ps[2]))
+    res.ob('%s %s' % (cs.loc(), cs.qual), 'candidates are searched with the per-state lexer of the start state (self.lexers[state])', ok)
+    if not ok:
+        res.finding(cs, cs.node, 'the contextual lexer does not search candidate starts with the lexer of the start state: terminals that the '
+                                 'parser cannot accept there (root lexer) become candidates, or acceptable ones are missed', construct='search-state-lexer')
+    bs = repo.func('lark.lexer:BasicLexer.search_start')
+    ps = bs.positional_names()
+    ok = len(ps) >= 3 and has_pat(bs.body_nodes(), 'return $me.search_scanner.search(%s, %s)' % (ps[0], ps[2]))
+    res.ob('%s %s' % (bs.loc(), bs.qual), 'the basic lexer searches the given window from the given position', ok)
+    if not ok:
+        res.finding(bs, bs.node, 'BasicLexer.search_start does not search (text, pos) with its search scanner', construct='search-basic')
     return res
